@@ -185,6 +185,15 @@ MustAllowStep(eff, prev, next) == eff = "solve" \/ next >= prev
 (*                              update_to(t) with t = evo.t raises, and the  *)
 (*                              solout stays installed for later at_times   *)
 (*                   "ok"     - repaired                                    *)
+(*  modes.int_repeat: "drift" - pinned, abstracted: the stepper may land    *)
+(*                              one ulp above a request; repeating the      *)
+(*                              request is then a backward request, which   *)
+(*                              dop853 answers with a forward step of       *)
+(*                              ||H||/50 (modelled as one time unit).  In   *)
+(*                              the real code this happens for about 2% of  *)
+(*                              the request times, so the Trace spec's      *)
+(*                              drift note uses "ok".                       *)
+(*                   "ok"     - repaired / the usual case                   *)
 
 ImplNew(kind, method, hrep, dim, t0, pb, modes) ==
   LET timedep == hrep = "callable"    \* callable and not LinearOperator / Lazy
@@ -229,6 +238,9 @@ ImplUpdate(st, t, via, modes) ==
     [] st.upd = "solved_broken" -> [s EXCEPT !.tpy = t, !.exc = "TypingError"]    \* time moved, state not
     [] st.upd = "integrate"  ->
          IF bar /\ span0 THEN [s EXCEPT !.exc = "ZeroDivisionError", !.span0 = span0]
+         ELSE IF modes.int_repeat = "drift" /\ t = st.tst /\ t # st.t0
+         THEN [s EXCEPT !.tst = t + 1, !.tauL = @ + 1, !.span0 = span0,
+                        !.tauR = IF st.kind = "dop" THEN @ + 1 ELSE @]
          ELSE [s EXCEPT !.tst = t, !.tauL = @ + (t - st.tst), !.span0 = span0,
                         !.tauR = IF st.kind = "dop" THEN @ + (t - st.tst) ELSE @]
     [] st.upd = "expm_ket"   -> [s EXCEPT !.tpy = t, !.tauL = @ + (t - ImplT(st))]
@@ -239,5 +251,5 @@ ImplUpdate(st, t, via, modes) ==
 \* the book-keeping says "evolved by exactly t - t0, on both sides"
 ImplTimeOK(s) == s.tauL = ImplT(s) - s.t0 /\ (s.kind = "dop" => s.tauR = ImplT(s) - s.t0)
 
-PinnedModes   == [expm_dop |-> "left", solve2 |-> "crash", progbar0 |-> "crash"]
+PinnedModes   == [expm_dop |-> "left", solve2 |-> "crash", progbar0 |-> "crash", int_repeat |-> "ok"]
 =============================================================================
